@@ -216,6 +216,29 @@ func (e *busloadExec) Do(line string) string {
 		ids[m] = j
 		specs = append(specs, spec{size, cyc})
 	}
+	// messages that were sent once and are NOT sent any more must not be billed: a message with a
+	// static CAN-ID and a plain one are added to an interface and removed again before the load is
+	// computed (the line, and therefore the model, does not know them)
+	if n%2 == 1 {
+		g := acmelib.NewMessage("ghost_static", acmelib.MessageID(900), 8)
+		g.SetCycleTime(1)
+		if err := g.SetStaticCANID(acmelib.CANID(0x7f0)); err == nil {
+			if err := ifs[0].AddSentMessage(g); err == nil {
+				if err := ifs[0].RemoveSentMessage(g.EntityID()); err != nil {
+					e.fail("ghost-remove-refused", line)
+				}
+			}
+		}
+	}
+	if n%3 == 0 {
+		g := acmelib.NewMessage("ghost_plain", acmelib.MessageID(901), 8)
+		g.SetCycleTime(1)
+		if err := ifs[len(ifs)-1].AddSentMessage(g); err == nil {
+			if err := ifs[len(ifs)-1].RemoveSentMessage(g.EntityID()); err != nil {
+				e.fail("ghost-remove-refused", line)
+			}
+		}
+	}
 	load, mls, err := acmelib.CalculateBusLoad(bus, def)
 	if err != nil {
 		if def > 0 {
